@@ -328,7 +328,7 @@ func c04StatusRules(c *Ctx, rule string) {
 			c.fail(rule, key, fn.Pos(), fmt.Sprintf("%s does not call State.%s(nodeID%s): the routing table does not follow this membership event", sp.method, sp.mutator, map[bool]string{true: ", " + sp.statusConst, false: ""}[sp.statusConst != ""]))
 			continue
 		}
-		paths, complete := enumPaths(fn.Blocks[0].Instrs[0], isTarget, nil, func(pa *fpath) bool { return len(pa.seen) > 0 }, 200)
+		paths, complete := enumPathsAt(fn.Blocks[0], 0, isTarget, nil, func(pa *fpath) bool { return len(pa.seen) > 0 }, 200)
 		bad := ""
 		for _, pa := range paths {
 			if len(pa.seen) > 0 || pa.endWhy != "return" {
@@ -453,7 +453,7 @@ func c04KeyRules(c *Ctx) {
 		}
 		// a path may skip the table update only with an allowed fact, or (upsert)
 		// when it goes on to the pending arm having seen a non-endpoint key
-		paths, complete := enumPaths(fn.Blocks[0].Instrs[0], isTarget, nil, func(pa *fpath) bool { return len(pa.seen) > 0 }, 400)
+		paths, complete := enumPathsAt(fn.Blocks[0], 0, isTarget, nil, func(pa *fpath) bool { return len(pa.seen) > 0 }, 400)
 		bad := ""
 		for _, pa := range paths {
 			if len(pa.seen) > 0 || pa.endWhy != "return" {
